@@ -848,7 +848,9 @@ def do_indent(
         indention = escape(indention)
         newline = Markup(newline)
 
-    s += newline  # this quirk is necessary for splitlines method
+    # this quirk is necessary for splitlines method, not done in place as
+    # the value may be a caller's list
+    s = s + newline
 
     if blank:
         rv = (newline + indention).join(s.splitlines())
